@@ -24,6 +24,10 @@ pub enum Pipe {
   Delay,
   Finalize,
   Behavior,
+  Debounce,
+  ThrottleTail,
+  /// flat_map over a hot inner and a synchronous `from_iter` inner (counting iterator)
+  FlatMapIter,
 }
 
 pub const C10_PIPES: &[Pipe] = &[Pipe::Subject, Pipe::Merge, Pipe::Zip, Pipe::CombineLatest, Pipe::TakeUntil, Pipe::MergeAll, Pipe::Share, Pipe::ObserveOn, Pipe::Delay];
@@ -189,6 +193,49 @@ pub fn build(p: Pipe) -> Rig {
     Pipe::Delay => {
       keep!(cat::hot_tagged_t(0).delay_threads(world::units(1), world::any_sched()).actual_subscribe(probe));
       Rig { feed: feed_tags(vec![0]), ninputs: 1, unsub, subscribe: None, probes: vec![probe], drain: sched_drain, peek: None, extra: vec![] }
+    }
+    Pipe::Debounce => {
+      keep!(cat::hot_tagged_t(0).debounce(world::units(1), world::any_sched()).actual_subscribe(probe));
+      Rig { feed: feed_tags(vec![0]), ninputs: 1, unsub, subscribe: None, probes: vec![probe], drain: sched_drain, peek: None, extra: vec![] }
+    }
+    Pipe::ThrottleTail => {
+      keep!(cat::hot_tagged_t(0).throttle(|_v: &Val| world::units(1), rxrust::ops::throttle::ThrottleEdge::tailing(), world::any_sched()).actual_subscribe(probe));
+      Rig { feed: feed_tags(vec![0]), ninputs: 1, unsub, subscribe: None, probes: vec![probe], drain: sched_drain, peek: None, extra: vec![] }
+    }
+    Pipe::FlatMapIter => {
+      // outer handle 9 emits inner 0 (hot) first; a thread later emits inner 1 = from_iter over a counting iterator
+      let src = cat::hot_tagged_t(9);
+      keep!(src
+        .flat_map_threads(|v: Val| -> cat::ObsT {
+          if v.sym().konst() == Some(0) {
+            cat::hot_tagged_t(0)
+          } else {
+            observable::from_iter((0..6).map(|i| {
+              let n = world::bump(7);
+              // remember how far the iterator had been pulled when the output terminated
+              if world::counter(8) == 0 && world::w(|w| w.probes.first().map_or(false, |p| p.terminated)) {
+                world::set_counter(8, n - 1);
+              }
+              Val::c(100 + i)
+            }))
+            .on_error_map(|_: std::convert::Infallible| Val::c(0))
+            .box_it()
+          }
+        })
+        .actual_subscribe(probe));
+      let mut h = cat::handle_t(9);
+      h.next(Val::c(0));
+      let start_iter: Rc<dyn Fn()> = Rc::new(|| {
+        let mut h = cat::handle_t(9);
+        h.next(Val::c(1));
+        // the synchronous inner has returned: how far did it pull after the output had terminated?
+        let pulls = world::counter(7);
+        let at_term = world::counter(8);
+        if at_term > 0 && pulls > at_term + 1 {
+          e::fail("flatten/iterator-inner-keeps-pulling-after-terminal", || format!("the output terminated when the iterator inner had been pulled {} times, yet it was pulled {} times in all: an unbounded iterator would never return", at_term, pulls));
+        }
+      });
+      Rig { feed: feed_tags(vec![0]), ninputs: 1, unsub, subscribe: None, probes: vec![probe], drain: nodrain, peek: None, extra: vec![("outer emits the from_iter inner", start_iter)] }
     }
     Pipe::Finalize => {
       let fin = move || {
@@ -464,7 +511,8 @@ pub fn harnesses() -> Vec<HarnessDef> {
   };
   add("c10_lockset_order", vec!["C10"], "Eraser lockset on every subscriber callback + lock-order cycle detection between two logical threads' scripts (sufficient conditions that cover all interleavings of the scripts, not only explored ones)", |t| format!("9 thread-safe pipelines; 2 threads x {} operations (next/complete/error on every input, unsubscribe, subscribe)", if t { 3 } else { 2 }), Box::new(|t| c10_lockset_order(if t { 3 } else { 2 })), 2_000_000, 40_000_000);
   add("c10_preempt", vec!["C10"], "two logical threads with nested pre-emption at every MutArc lock acquisition, inside callbacks and at yield points: overlapping callbacks, deadlock (lock cycle), self-deadlock, panic, common delivery order", |t| format!("9 thread-safe pipelines; 2 threads x {} operations; <= {} pre-emptions, nesting depth 2", if t { 2 } else { 2 }, if t { 3 } else { 2 }), Box::new(|t| c10_preempt(C10_PIPES, 2, if t { 3 } else { 2 })), 3_000_000, 40_000_000);
-  add("c02_threads", vec!["C02"], "an unsubscribing logical thread racing an emitting one at every lock acquisition: no callback may start after unsubscribe() returned", |_| "9 thread-safe pipelines + finalize_threads; 2 threads x 2 operations".to_string(), Box::new(|_| c10_preempt(&[Pipe::Subject, Pipe::Merge, Pipe::Zip, Pipe::CombineLatest, Pipe::TakeUntil, Pipe::MergeAll, Pipe::Share, Pipe::ObserveOn, Pipe::Delay, Pipe::Finalize], 2, 2)), 3_000_000, 40_000_000);
+  add("c02_threads", vec!["C02"], "an unsubscribing logical thread racing an emitting one at every lock acquisition: no callback may start after unsubscribe() returned (scheduled work is drained afterwards)", |_| "9 thread-safe pipelines + finalize_threads, debounce, throttle(tailing); 2 threads x 2 operations".to_string(), Box::new(|_| c10_preempt(&[Pipe::Subject, Pipe::Merge, Pipe::Zip, Pipe::CombineLatest, Pipe::TakeUntil, Pipe::MergeAll, Pipe::Share, Pipe::ObserveOn, Pipe::Delay, Pipe::Finalize, Pipe::Debounce, Pipe::ThrottleTail], 2, 3)), 3_000_000, 40_000_000);
+  add("c05_threads_iter", vec!["C05", "C16"], "flat_map_threads over a hot inner and a synchronous from_iter inner: another thread terminates the output while the iterator inner is emitting; it must stop pulling (no blocking on an unbounded iterator)", |_| "2 threads x 2 operations, <= 3 pre-emptions".to_string(), Box::new(|_| c10_preempt(&[Pipe::FlatMapIter], 2, 3)), 3_000_000, 40_000_000);
   add("c02_threads_sched", vec!["C02", "C19"], "a pool worker thread polling scheduled tasks (subscribe_on / delay_subscription over a synchronous source, observe_on_threads, delay_threads, interval) racing an unsubscribing thread at every lock acquisition and inside callbacks", |_| "5 pipelines; worker: 3 executor steps; 1 unsubscribe; <= 3 pre-emptions".to_string(), Box::new(|_| c02_threads_sched()), 3_000_000, 40_000_000);
   add("c06_threads", vec!["C06"], "SubjectThreads under two logical threads: every subscriber's log stays well-formed and all subscribers agree on the order", |t| format!("2 threads x {} operations", if t { 3 } else { 2 }), Box::new(|t| c10_preempt(&[Pipe::Subject], if t { 3 } else { 2 }, 3)), 3_000_000, 40_000_000);
   add("c12_threads", vec!["C12"], "BehaviorSubject over SubjectThreads: two producers and a late subscriber; peek() = last value in the common delivery order", |_| "2 threads x 2 operations".to_string(), Box::new(|_| c10_preempt(&[Pipe::Behavior], 2, 3)), 3_000_000, 40_000_000);
